@@ -196,6 +196,17 @@ func runC13(c *Ctx, r *Report, tier string) {
 		_, req := c.Requires(mg, isInstr(s), litIs("nonempty(P1)", false), nil)
 		r.Check(req && c.term(call.Call.Args[0]) == "Command.Group(Parser.Command(IniParser.parser(P0)))", "SECTION", mn, "entries before any header address all of the parser's own groups", c.ipos(s), "REQ(name == \"\"); eachGroup over the parser's group tree", "empty section handled by "+trunc(c.term(call.Call.Args[0]), 80))
 	}
+	// what the header-less section resolves to is collected by that walk: every return that an empty name can reach
+	// (other than "no group") passes it
+	for _, ret := range returnsOf(mg) {
+		if isConstNil(c.resolve(ret.Results[0])) {
+			continue
+		}
+		// (paths on which the name is empty: edges that establish a non-empty name are cut)
+		q := &PathQ{c: c, Fn: mg, CutLit: litIs("nonempty(P1)", true), CutIn: c.isCallTo("(*Group).eachGroup")}
+		path, found := q.Reach(entrySite(mg), 0, isInstr(ret))
+		r.Check(!found, "SECTION", mn, "the header-less section is the flattened group tree", c.ipos(ret), "with an empty name every path to a non-nil result passes eachGroup over the parser's group tree", "reachable for an empty section name without that walk: "+pathStr(path))
+	}
 	for _, s := range c.instrs(mg, c.isCallTo("(*Command).groupByName")) {
 		call := s.(*ssa.Call)
 		r.Check(c.term(call.Call.Args[0]) == "Parser.Command(IniParser.parser(P0))" && c.term(call.Call.Args[1]) == "P1", "SECTION", mn, "named sections resolved from the root command", c.ipos(s), "parser.groupByName(name)", "named section resolved by "+trunc(c.term(call.Call.Args[0]), 80))
@@ -329,6 +340,49 @@ func runC13(c *Ctx, r *Report, tier string) {
 			r.Check(req, "ACCUMULATE", c.fname(ri), "a section name is ordered once", c.ipos(s.Store), "ini.order = append(…, name) REQ(Sections[name] == nil)", "a section that is reopened can be entered in the section order again: its entries are then applied twice")
 		}
 		r.Check(nOrd == 1, "ACCUMULATE", c.fname(ri), "section order writer", c.pos(ri.Pos()), "one append", fmt.Sprintf("%d", nOrd))
+		// a section is recorded under the name written between the brackets, as written (command names in a dotted
+		// path are compared exactly; only group descriptions are matched case-insensitively, by the lookup)
+		nKey := 0
+		for _, b := range c.blocks(ri) {
+			for _, in := range b.Instrs {
+				mu, ok := in.(*ssa.MapUpdate)
+				if !ok || !strings.HasPrefix(c.term(mu.Map), "ini.Sections(") {
+					continue
+				}
+				var keyTerms []string
+				for _, o := range c.originsOf(mu.Key, mu) {
+					keyTerms = append(keyTerms, o.Term)
+					if p, isP := c.resolve(o.Val).(*ssa.Parameter); isP && c.isNew(p.Parent()) {
+						// recorded by a new helper that several places call: the names those places hand it
+						if sites, _ := c.callersOf(p.Parent()); len(sites) > 0 {
+							keyTerms = keyTerms[:len(keyTerms)-1]
+							for k, q := range p.Parent().Params {
+								if q == p {
+									for _, cs := range sites {
+										for _, o2 := range c.originsOf(cs.Call.Common().Args[k], cs.Call) {
+											keyTerms = append(keyTerms, o2.Term)
+										}
+									}
+								}
+							}
+						}
+					}
+				}
+				for _, t := range keyTerms {
+					nKey++
+					okKey := t == `""`
+					if strings.HasPrefix(t, "call:strings.TrimSpace(slice(") && strings.HasSuffix(t, ") - 1)))") {
+						inner := t[len("call:strings.TrimSpace(slice("):]
+						if i := strings.Index(inner, ", 1, (len("); i > 0 {
+							line := inner[:i]
+							okKey = inner == line+", 1, (len("+line+") - 1)))"
+						}
+					}
+					r.Check(okKey, "SECTION", c.fname(ri), "a section is recorded under the text between its brackets", c.ipos(mu), "key = TrimSpace(line[1:len(line)-1]) (or \"\" before any header)", "the section key is "+trunc(t, 120)+": a header is not matched as written")
+				}
+			}
+		}
+		r.Check(nKey >= 1, "SECTION", c.fname(ri), "section writers found", c.pos(ri.Pos()), "≥ 1", fmt.Sprintf("%d", nKey))
 	}
 	// entries before any header address ALL groups of the parser's tree (also groups without options of their
 	// own: the root group keeps the name priority across its subgroups)
